@@ -940,8 +940,11 @@ func (c *Catalogue) buildSec(in *Inst, r *Rng) {
 		dir = uint8(r.Intn(256))
 	}
 	n := r.Len(300)
-	if r.Chance(4) && (strings.HasSuffix(in.Spec.Name, "2") || strings.HasSuffix(in.Spec.Name, "/0")) {
-		n = 4000 + r.Intn(5200) // AES and the null algorithms are cheap enough for PDUs beyond 4 KiB
+	isMac := strings.HasPrefix(in.Spec.Name, "NIA") || strings.HasPrefix(in.Spec.Name, "NASMac")
+	if r.Chance(6) && (isMac || strings.HasSuffix(in.Spec.Name, "2") || strings.HasSuffix(in.Spec.Name, "/0")) {
+		// PDUs beyond 2 and 4 KiB: affordable for the MAC functions (a handful of key-stream
+		// words plus one multiplication per block), for AES and for the null algorithms
+		n = 2100 + r.Intn(7000)
 	}
 	payload := r.Bytes(n)
 	if r.Chance(4) {
@@ -953,12 +956,12 @@ func (c *Catalogue) buildSec(in *Inst, r *Rng) {
 	}
 	if in.Spec.Var != 0 {
 		vr := NewRng(in.Spec.Var)
-		switch vr.Intn(6) {
-		case 0, 1:
+		switch vr.Intn(5) {
+		case 0:
 			key[vr.Intn(16)] ^= byte(1 << uint(vr.Intn(8)))
-		case 4:
+		case 1:
 			bearer ^= byte(1 << uint(vr.Intn(5))) // same key and COUNT, another bearer
-		case 5:
+		case 4:
 			dir ^= 1 // same key and COUNT, other direction
 		case 2:
 			if len(payload) > 0 {
